@@ -314,50 +314,72 @@ type seqCase struct {
 	Ops         []string `json:"ops"`
 }
 
+// seqLaw runs one sequential history under the scheduler (one thread): a call that would block for
+// ever is then a deadlock verdict of that history instead of a hang of the harness.
 func seqLaw(c *enum.Ctx, k seqCase) {
-	p := concurrent.NewPromise(false, k.Recoverable, k.Relay)
-	winner := ""
-	c.Guard("promise-seq/panic", k, func() {
-		for i, o := range k.Ops {
-			switch o[0] {
-			case 'F':
-				err := p.Fulfill(int(o[1] - '0'))
-				if (err == nil) != (winner == "") {
-					c.Fail("promise-seq/fulfill-verdict", k, "step %d %s: err=%v although the promise was settled by %q", i, o, err, winner)
-					return
-				}
-				if err == nil {
-					winner = o
-				}
-			case 'X':
-				ok := p.Fail(int(o[1]-'0'), errOp)
-				if ok != (winner == "") {
-					c.Fail("promise-seq/fail-verdict", k, "step %d %s: ok=%v although the promise was settled by %q", i, o, ok, winner)
-					return
-				}
-				if ok {
-					winner = o
-				}
-			case 'W':
-				if winner == "" {
-					continue // would block: not part of a sequential history
-				}
-				r := <-p.Wait()
-				if r.Value != int(winner[1]-'0') {
-					c.Fail("promise-seq/value-changed", k, "step %d: Wait returned value %v, the promise was settled by %s", i, r.Value, winner)
-					return
-				}
-				if winner[0] == 'X' && r.Err != errOp {
-					c.Fail("promise-seq/failure-error", k, "step %d: Wait returned error %v, the promise was failed with %v", i, r.Err, errOp)
-					return
-				}
-				if winner[0] == 'F' && r.Err != nil && !k.Relay {
-					c.Fail("promise-seq/spurious-error", k, "step %d: Wait on a fulfilled non-relaying promise returned error %v", i, r.Err)
-					return
-				}
+	e := vrt.NewExplorer(vrt.Config{PreemptBound: -1, Budget: time.Minute})
+	st := e.Explore(func() vrt.Run {
+		var class, msg string
+		fail := func(cl, f string, a ...interface{}) {
+			if class == "" {
+				class, msg = cl, fmt.Sprintf(f, a...)
 			}
 		}
+		return vrt.Run{Body: func() {
+			p := concurrent.NewPromise(false, k.Recoverable, k.Relay)
+			winner := ""
+			for i, o := range k.Ops {
+				switch o[0] {
+				case 'F':
+					err := p.Fulfill(int(o[1] - '0'))
+					if (err == nil) != (winner == "") {
+						fail("promise-seq/fulfill-verdict", "step %d %s: err=%v although the promise was settled by %q", i, o, err, winner)
+						return
+					}
+					if err == nil {
+						winner = o
+					}
+				case 'X':
+					ok := p.Fail(int(o[1]-'0'), errOp)
+					if ok != (winner == "") {
+						fail("promise-seq/fail-verdict", "step %d %s: ok=%v although the promise was settled by %q", i, o, ok, winner)
+						return
+					}
+					if ok {
+						winner = o
+					}
+				case 'W':
+					if winner == "" {
+						continue // would block: not part of a sequential history
+					}
+					r := <-p.Wait()
+					if r.Value != int(winner[1]-'0') {
+						fail("promise-seq/value-changed", "step %d: Wait returned value %v, the promise was settled by %s", i, r.Value, winner)
+						return
+					}
+					if winner[0] == 'X' && r.Err != errOp {
+						fail("promise-seq/failure-error", "step %d: Wait returned error %v, the promise was failed with %v", i, r.Err, errOp)
+						return
+					}
+					if winner[0] == 'F' && r.Err != nil && !k.Relay {
+						fail("promise-seq/spurious-error", "step %d: Wait on a fulfilled non-relaying promise returned error %v", i, r.Err)
+						return
+					}
+				}
+			}
+		}, Verdict: func(r *vrt.Result) (string, string, string) {
+			if cl, m := bad(r); cl != "" {
+				return "promise-seq/" + cl, "history " + strings.Join(k.Ops, " ") + ": " + m, ""
+			}
+			return class, msg, ""
+		}}
 	})
+	for _, v := range st.Violations {
+		c.Fail(v.Class, k, "%s", v.Msg)
+	}
+	if !st.Exhaustive && len(st.Violations) == 0 {
+		c.NotExhaustive("sequential promise history " + strings.Join(k.Ops, " ") + ": " + st.Why)
+	}
 }
 
 func seqLaws(c *enum.Ctx) {
